@@ -377,8 +377,11 @@ class Check:
         ev = {"property_id": self.pid, "tier": self.tier, "seed": self.seed, "level": "proof",
               "coverage": cov, "assumptions": self.assumptions,
               "wall_s": round(time.time() - self.t0, 2), "violations": len(self.violations)}
-        os.makedirs(os.path.join(VERIF, "evidence"), exist_ok=True)
-        json.dump(ev, open(os.path.join(VERIF, "evidence", self.pid + ".json"), "w"), indent=1,
+        # evidence/ describes runs against /repo itself; a run against another tree (VERIF_REPO=<scratch copy>, used to try
+        # seeded changes) leaves it alone and writes its record under .scratch/
+        evdir = os.path.join(VERIF, "evidence") if os.path.realpath(REPO) == "/repo" else os.path.join(SCRATCH, "evidence_other_tree")
+        os.makedirs(evdir, exist_ok=True)
+        json.dump(ev, open(os.path.join(evdir, self.pid + ".json"), "w"), indent=1,
                   default=str)
         for f in self.findings:
             if f.get("status") == "known" and self.known_hits.get(f["id"]):
